@@ -904,6 +904,10 @@ def c16(run):
             run.report("settable limit: explicit sets issued at once were delivered as %s, the listener was last told %s but EstimatedLimit reports %s" % (
                 lg.get("delivered"), lg.get("last"), lg.get("est")), {"reject": rj, "rerun": "bin/check C16"}, {"algo": "settable", "class": "notify-concurrent"})
             continue
+        if lg.get("ev") == "Registered":
+            run.report("%s limit: eight listeners registered at the same instant (directly and through the traced wrapper): in %s of %s rounds one of them was never told of the next change" % (
+                lg.get("algo"), lg.get("lost"), lg.get("rounds")), {"reject": rj, "rerun": "bin/check C16"}, {"algo": lg.get("algo"), "class": "notify-registration"})
+            continue
         if lg.get("ev") == "Inside":
             run.report("settable limit (%s): a listener reading the estimate back while it was being notified saw (delivered, estimate) = %s" % (
                 lg.get("wrap"), lg.get("pairs")), {"reject": rj, "rerun": "bin/check C16"}, {"algo": "settable", "class": "notify-inside", "wrap": lg.get("wrap")})
